@@ -2,10 +2,13 @@
 
 Real hailtop.utils.rate_limiter.RateLimiter on the virtual loop; time.time is the virtual clock.  A
 configuration is (count, window, multiset of arrival times, optional cancellation of one entrant at a given
-time).  Entrants sleep until their arrival time and then do `async with limiter`.  Every order of the runnable
-task steps at each instant is explored (who wakes first when several timers fire together, a newcomer
-overtaking a waiter that was just woken, a cancellation landing before the entrant arrived, while it sleeps
-inside the limiter, or after its timer fired but before it resumed).
+time).  Entrants sleep until their arrival time and then do `async with limiter`.  Explored: who wakes first
+when several timers fire together, a newcomer overtaking a waiter that was just woken, a cancellation landing
+before the entrant arrived, while it sleeps inside the limiter, or after its timer fired but before it resumed.
+Scheduling model (only schedules real asyncio can produce): the ready queue is strictly FIFO, so a freshly
+created task takes its first step in creation order; every yield of a harness body, every arrival and the
+cancellation are external events which the environment completes in any order, appending the completion at
+the end of the ready queue (timers due at one instant fire in any order too).  All such orders are explored.
 
 Oracle, an on-line monitor that knows nothing about the implementation:
   rate   at every admission at time t, the number of admissions in the half-open window (t - W, t] is <= count;
